@@ -297,7 +297,7 @@ def _worker(args):
             gp.setdefault("period", info()["periodTicks"])            # the generator places sweeps and absences
             gp.setdefault("expiration", info()["expirationTicks"])    # relative to the CURRENT constants of /repo
             history = gen.generate(seed, **gp)
-        if idx < 6 and not profile.get("_special"):
+        if (idx < 12 and not profile.get("_special")) or (idx < 2 and profile.get("_special") and not profile.get("_exhaustive")):
             r, hit = _trace_lines(lambda: run_history(pid, history, meta))
             r["lines"] = sorted(hit)
         else:
@@ -491,7 +491,7 @@ def main():
             ex = _executable_lines(os.path.join(REPO, "src", "wormhole_mailbox_server", f))
             got = {ln for (ff, ln) in lines_hit if ff == f}
             code_cov[f] = {"executable_lines": len(ex), "executed": len(ex & got), "never_executed": sorted(ex - got)[:80]}
-        cov["code_lines_of_the_implementation_executed"] = {"note": "measured with sys.settrace on the first 6 histories of every profile of this run", "files": code_cov}
+        cov["code_lines_of_the_implementation_executed"] = {"note": "measured with sys.settrace on the first 12 histories of every generated profile (2 of every constructed one) of this run", "files": code_cov}
         shapes, ops, errs, trig = set(), {}, {}, {}
         nontrivial = set()
         samples = []
@@ -552,6 +552,18 @@ def main():
             cov["exhaustive_subspace"] = {"complete": True, "histories": ex[0][2], "length": ex[0][1]["L"],
                                           "alphabet": ["%s by side s%d" % (a, k) if k else a for k, a in __import__("props").EXH_SYMBOLS],
                                           "note": "every word of this length over the alphabet (3 sides, 1 app, 1 nameplate and its mailbox) was run on the code and on the model(s) and checked by the oracle"}
+
+    if pid == "C03" and eng is None:
+        # the one function the harness replaces: the real generator of mailbox ids
+        from wormhole_mailbox_server import server as _srv
+        gen_f = _srv.generate_mailbox_id
+        ids = [gen_f() for _ in range(20000)]
+        ok = len(set(ids)) == len(ids) and all(isinstance(x, str) and len(x) == 13 and x == x.lower() and x.isalnum() for x in ids)
+        cov["real_generate_mailbox_id"] = {"draws": len(ids), "distinct": len(set(ids)), "well_formed": ok, "sample": ids[:2]}
+        if not ok and not violations:
+            path = write_replay(pid, "mailbox-id-generator", {"broken": "generate_mailbox_id no longer yields distinct 13-character lowercase base32 ids (the freshness hypothesis WFOp.idFresh of C03_distinct models 64 random bits)",
+                                                              "distinct": len(set(ids)), "sample": ids[:5]})
+            violations.append((path, " no-failing-input-found"))
 
     if pid == "C17" and eng is None:
         # the same histories through the REAL Autobahn/Twisted stack on 127.0.0.1
